@@ -384,6 +384,69 @@ def selftest(ctx, prop: str, out) -> dict:
     return {"selftest": {**summary, "variants": [{k: r[k] for k in ('variant', 'status')} for r in results]}}
 
 
+def _run_seed(sd: str, prop: str, root: str, repo: str) -> dict:
+    """apply one independently seeded change (/verif/seeded/<name>/patch.diff) to a scratch copy and run the property's quick check"""
+    name = os.path.basename(sd.rstrip("/"))
+    d = tempfile.mkdtemp(prefix="s_", dir=root)
+    try:
+        shutil.copytree(os.path.join(repo, "flox"), os.path.join(d, "flox"), ignore=shutil.ignore_patterns("__pycache__"))
+        how = None
+        for patch, extra, label in ((os.path.join(sd, "patch.diff"), [], "plain"), (os.path.join(sd, "patch.diff"), ["-F3"], "fuzz"),
+                                    (os.path.join(sd, "patch_rebased.diff"), [], "rebased")):
+            if not os.path.exists(patch):
+                continue
+            dry = subprocess.run(["patch", "-s", "-p1", "--dry-run", *extra, "-i", patch], cwd=d, capture_output=True, text=True)
+            if dry.returncode == 0:
+                subprocess.run(["patch", "-s", "-p1", "--no-backup-if-mismatch", *extra, "-i", patch], cwd=d, capture_output=True, text=True)
+                how = label
+                break
+        if how is None:
+            return {"variant": f"seed {name}", "property": prop, "status": "skipped", "why": "patch no longer applies to the tree under test"}
+        env = dict(os.environ, FLOXSA_REPO=d, FLOXSA_NOWRITE="1", PYTHONDONTWRITEBYTECODE="1")
+        verif = os.path.dirname(os.path.dirname(os.path.abspath(__file__)))
+        r = subprocess.run([sys.executable, "-B", "-m", "floxsa", prop, "--tier", "quick"], cwd=verif, env=env, capture_output=True, text=True, timeout=900)
+        reports = [l for l in r.stdout.splitlines() if l.strip().startswith("REPORT")]
+        ok = r.returncode == 1 and reports
+        return {"variant": f"seed {name} ({how})", "property": prop, "status": "fired" if ok else "MISSED", "exit": r.returncode,
+                "why": None if ok else (r.stdout.splitlines()[-2:])}
+    finally:
+        shutil.rmtree(d, ignore_errors=True)
+
+
+def seeded_regression(ctx, prop: str, out) -> dict:
+    """thorough-tier hook: every independently seeded change that this property's check is recorded to catch (meta.json: detected_by)
+    must still be caught.  A seed whose patch no longer applies is skipped (listed), never a failure."""
+    import glob
+    import json
+    base = os.path.join(os.path.dirname(os.path.dirname(os.path.abspath(__file__))), "seeded")
+    todo = []
+    for mp in sorted(glob.glob(os.path.join(base, "*", "meta.json"))):
+        try:
+            meta = json.load(open(mp))
+        except (OSError, ValueError):
+            continue
+        if f"{prop}[" in str(meta.get("detected_by", "")):
+            todo.append(os.path.dirname(mp))
+    if not todo:
+        out(f"[floxsa] seeded changes {prop}: none recorded for this property")
+        return {"seeded": {"fired": 0, "skipped": 0, "failures": []}}
+    root = tempfile.mkdtemp(prefix="floxsa_seeds_")
+    try:
+        with ThreadPoolExecutor(max_workers=8) as ex:
+            results = list(ex.map(lambda sd: _run_seed(sd, prop, root, ctx.repo), todo))
+    finally:
+        shutil.rmtree(root, ignore_errors=True)
+    fired = [r for r in results if r["status"] == "fired"]
+    skipped = [r for r in results if r["status"] == "skipped"]
+    failures = [r for r in results if r["status"] not in ("fired", "skipped")]
+    out(f"[floxsa] seeded changes {prop}: {len(fired)} caught again, {len(skipped)} skipped, {len(failures)} no longer caught")
+    for r in results:
+        out(f"    {r['status']:<12} {r['variant']}" + (f"  ({r.get('why')})" if r["status"] != "fired" else ""))
+    if failures:
+        raise AnalysisError(f"seeded changes recorded as caught by {prop} are no longer caught: {[r['variant'] for r in failures]}")
+    return {"seeded": {"fired": len(fired), "skipped": len(skipped), "failures": [], "seeds": [r["variant"] for r in results]}}
+
+
 def user_blueprints(ctx, prop: str, out) -> dict:
     """thorough-tier hook for C04: push the Aggregation(...) objects constructed in tests/, docs/ and asv_bench/ through the
     monoid table as samples of user-defined blueprints.  Reported, never fatal: they are not the library."""
